@@ -23,7 +23,7 @@ TABLE = {
         nontrivial=lambda n: _kind(n) in ("publish", "pubrel", "puback", "pubrec", "pubcomp") or (_kind(n) == "connack" and n["call"]["pkt"]["sp"]),
         profile="qos"),
     "C07": dict(
-        quick=["in_qos2", "in_qos2_alias", "in_qos2_disc"], thorough=["in_qos2", "in_qos2_alias", "in_qos2_disc", "in_rm", "crash_in"],
+        quick=["in_qos2", "in_qos2_alias", "in_qos2_disc", "in_qos2_late"], thorough=["in_qos2", "in_qos2_alias", "in_qos2_disc", "in_qos2_late", "in_rm", "crash_in"],
         rule="a QoS 2 PUBLISH or a PUBREL is received",
         nontrivial=lambda n: _op(n) == "recv" and ((_kind(n) == "publish" and n["call"]["pkt"]["qos"] == 2) or _kind(n) == "pubrel"),
         profile="inbound"),
@@ -34,7 +34,7 @@ TABLE = {
         nontrivial=lambda n: _op(n) in ("acquire", "register", "release") or any(e["ev"] == "released" for e in n["out"]),
         profile="ids"),
     "C10": dict(
-        quick=["reuse_c", "reuse_s"], thorough=["reuse_c", "reuse_c2", "reuse_s", "timers_c"],
+        quick=["reuse_c", "reuse_s", "reuse_sess"], thorough=["reuse_c", "reuse_c2", "reuse_s", "reuse_sess", "timers_c"],
         rule="a reused object runs next to a fresh shadow object after a close",
         nontrivial=lambda n: n.get("shadow") == "fresh", profile="reuse"),
     "C11": dict(
@@ -42,11 +42,11 @@ TABLE = {
         rule="send is called (one cell of role x version x state x kind)",
         nontrivial=lambda n: _op(n) == "send", profile="gate"),
     "C12": dict(
-        quick=["qos_c50_rm", "qos_server", "in_rm"], thorough=["qos_c50_rm", "qos_c50", "qos_server", "in_rm", "crash_out"],
+        quick=["qos_c50_rm", "qos_server", "in_rm", "rm_alias", "in_rm_mps"], thorough=["qos_c50_rm", "qos_c50", "qos_server", "in_rm", "crash_out", "rm_alias", "in_rm_mps"],
         rule="a Receive Maximum is in force (vacancy reported)",
         nontrivial=lambda n: n["obs"]["vacancy"] >= 0 or (_op(n) == "recv" and _kind(n) == "publish"), profile="qos"),
     "C13": dict(
-        quick=["alias_send", "alias_auto", "alias_srv"], thorough=["alias_send", "alias_auto", "alias_srv", "in_qos2_alias", "mps"],
+        quick=["alias_send", "alias_auto", "alias_srv", "alias_dup"], thorough=["alias_send", "alias_auto", "alias_srv", "in_qos2_alias", "mps", "alias_dup"],
         rule="a PUBLISH is sent or received on a v5.0 connection with topic aliases in play", quick_edges=45000,
         nontrivial=lambda n: _kind(n) == "publish" and (n["call"]["pkt"]["alias"] != 0 or any(e["ev"] == "send" and e["pkt"]["alias"] for e in n["out"])),
         profile="alias"),
@@ -56,11 +56,11 @@ TABLE = {
         nontrivial=lambda n: (n["dig"] or {}).get("mpsSend", 268435461) < 268435461 or (n["dig"] or {}).get("mpsRecv", 268435461) < 268435461,
         profile="mps"),
     "C15": dict(
-        quick=["timers_c", "timers_s"], thorough=["timers_c", "timers_s", "mps", "autodetect", "reuse_c2"],
+        quick=["timers_c", "timers_s", "timers_s_all"], thorough=["timers_c", "timers_s", "timers_s_all", "mps", "autodetect", "reuse_c2"],
         rule="a timer event is returned or a timer fires",
         nontrivial=lambda n: _op(n) == "fire" or any(e["ev"].startswith("timer") for e in n["out"]), profile="timers"),
     "C16": dict(
-        quick=["crash_out", "crash_in"], thorough=["crash_out", "crash_in"],
+        quick=["crash_out", "crash_in", "crash_order"], thorough=["crash_out", "crash_in", "crash_order"],
         rule="a restored copy runs next to the original after a crash point",
         nontrivial=lambda n: n.get("shadow") == "restored" or _op(n) == "crash", profile="crash"),
     "C17": dict(
